@@ -188,6 +188,50 @@ pub fn run(ctx: &mut Ctx, replay: Option<&[String]>) {
         }}).unwrap_or("panic".into());
         ctx.emit(&format!("c17 big {} {} {} ? {}", nr, nc, ops.iter().map(|o| o.token()).collect::<Vec<_>>().join(" "), queries.join(" ")), &ans, true, &["very-tall-matrix"]);
     }
+    // a matrix with more than 2^32 positions (70 000 x 70 000, a handful of ones): two positions whose linear indices r * ncols + c agree
+    // modulo 2^32 (and modulo 2^16 of course) must stay different entries
+    for _ in 0..ctx.scale(4, 40) {
+        let nc = 66_000 + rng.below(8_000);
+        let (r1, c1) = (rng.below(3_000), rng.below(nc));
+        let t = r1 * nc + c1 + (1usize << 32);
+        let (r2, c2) = (t / nc, t % nc);
+        let nr = r2 + 1 + rng.below(50);
+        let mut ops = vec![Op::Insert(r1, c1)];
+        let mut queries = vec![format!("q:{}:{}", r2, c2)];
+        match rng.below(3) {
+            0 => { ops.push(Op::Insert(r2, c2)); ops.push(Op::Remove(r1, c1)); }
+            1 => { ops.push(Op::Toggle(r2, c2)); ops.push(Op::Toggle(r1, c1)); ops.push(Op::Insert(r1, c2)); }
+            _ => { ops.push(Op::Remove(r2, c2)); ops.push(Op::Insert(r2, c1)); }
+        }
+        for (r, c) in [(r1, c1), (r2, c2), (r1, c2), (r2, c1)] { queries.push(format!("q:{}:{}", r, c)); }
+        queries.push(format!("ic:{}", c1)); queries.push(format!("ic:{}", c2)); queries.push(format!("ir:{}", r1)); queries.push(format!("ir:{}", r2));
+        queries.push(format!("w:{}", c2)); queries.push(format!("v:{}", r2));
+        let mut h = SparseMatrix::new(nr, nc);
+        let ans = guarded({ let ops = ops.clone(); let queries = queries.clone(); move || {
+            let mut first = String::new();
+            for (i, op) in ops.iter().enumerate() { op.apply(&mut h); if i == 0 { first = (h.contains(r2, c2) as u8).to_string(); } }
+            queries.iter().enumerate().map(|(qi, q)| {
+                if qi == 0 { return first.clone(); }
+                let t: Vec<&str> = q.split(':').collect();
+                match t[0] {
+                    "q" => (h.contains(t[1].parse().unwrap(), t[2].parse().unwrap()) as u8).to_string(),
+                    "w" => h.col_weight(t[1].parse().unwrap()).to_string(),
+                    "ic" | "ir" => {
+                        let i: usize = t[1].parse().unwrap();
+                        let mut v: Vec<usize> = if t[0] == "ic" { h.iter_col(i).copied().collect() } else { h.iter_row(i).copied().collect() };
+                        v.sort_unstable();
+                        if v.is_empty() { "-".to_string() } else { v.iter().map(|x| x.to_string()).collect::<Vec<_>>().join(",") }
+                    }
+                    _ => h.row_weight(t[1].parse().unwrap()).to_string(),
+                }
+            }).collect::<Vec<_>>().join(" ")
+        }}).unwrap_or("panic".into());
+        // the first query is answered right after the FIRST op (the colliding position must be absent then); it is sent as its own history
+        let a: Vec<&str> = ans.split(' ').collect();
+        ctx.emit(&format!("c17 big {} {} {} ? {}", nr, nc, ops[0].token(), queries[0]), a.first().copied().unwrap_or("panic"), true, &["more-than-2^32-positions"]);
+        ctx.emit(&format!("c17 big {} {} {} ? {}", nr, nc, ops.iter().map(|o| o.token()).collect::<Vec<_>>().join(" "), queries[1..].join(" ")),
+            &a.get(1..).map(|x| x.join(" ")).unwrap_or("panic".into()), true, &["more-than-2^32-positions"]);
+    }
     let n = ctx.scale(1500, 40000);
     let maxdim = ctx.scale(8, 14);
     for case in 0..n {
